@@ -161,8 +161,13 @@ pub struct C10;
 const OPS: [&str; 3] = ["RSTREAM", "ISTREAM", "DSTREAM"];
 
 type Engine = RSPEngine<Triple, Row>;
+// observable interleaving of one execution: 'P' = the source pushed an event, 'R' = the consumer received a row (all simulated
+// threads are coroutines on the run's OS thread, so a thread-local sees them all)
+thread_local! { static TRACE: std::cell::RefCell<Vec<u8>> = const { std::cell::RefCell::new(Vec::new()) }; }
+fn trace(b: u8) { TRACE.with(|t| t.borrow_mut().push(b)); }
+fn take_trace_hash() -> (u64, bool) { TRACE.with(|t| { let v = std::mem::take(&mut *t.borrow_mut()); let interleaved = v.windows(2).filter(|w| w[0] != w[1]).count() > 2; (kolibrie_verif_rt::log::fnv(&String::from_utf8_lossy(&v)), interleaved) }) }
 fn build_engine(query: &str, rules: &str, mode: OperationMode, policy: Option<SyncPolicy>, out: Arc<Mutex<Vec<Row>>>) -> Result<Engine, String> {
-    let consumer = ResultConsumer { function: Arc::new(move |r: Row| { out.lock().unwrap().push(r); }) };
+    let consumer = ResultConsumer { function: Arc::new(move |r: Row| { trace(b'R'); out.lock().unwrap().push(r); }) };
     let r2r = Box::new(SimpleR2R::with_execution_mode(QueryExecutionMode::Volcano));
     let mut b = RSPBuilder::new().add_rsp_ql_query(query).add_rules(rules).add_consumer(consumer).add_r2r(r2r).set_operation_mode(mode);
     if let Some(p) = policy { b = b.set_sync_policy(p); }
@@ -197,6 +202,7 @@ fn single_scenario(c: &SingleCase, mode: OperationMode, out: Arc<Mutex<Vec<Row>>
         let t = triples[0].clone(); names.insert(t.clone(), f);
         let cb = conts.lock().unwrap().len();
         probe.add_to_window(t.clone(), ts);
+        trace(b'P');
         e.add_to_stream("s", t, ts);
         let cg = conts.lock().unwrap();
         if cg.len() > cb { contents.push((i, cg.last().unwrap().iter().map(|t| names[t].clone()).collect())); }
@@ -275,6 +281,7 @@ impl Prop for C10 {
             if !a.contents[fi].1.is_empty() && fi > 0 { let prevd: BTreeSet<Fact> = dm::least_model(&a.contents[fi - 1].1, &c.rules).difference(&a.contents[fi - 1].1).cloned().collect(); if a.contents[fi].1.iter().any(|f| prevd.contains(f)) { ctx.hit("probe.raw_item_equals_fact_derived_in_previous_firing"); } }
             fi += 1;
         }
+        let _ = take_trace_hash();
         // ---- mode B: multi thread under seeded schedules; the flat sequence must be a concatenation of permutations of E_1..E_n
         for (seed, pct) in &c.schedules {
             let res: Arc<Mutex<Option<Result<SingleOut, String>>>> = Arc::new(Mutex::new(None));
@@ -298,7 +305,7 @@ impl Prop for C10 {
                 if sorted(got.clone()) != sorted(want.clone()) { return Some(Violation::new("multi-thread-sequence-differs", format!("{} [RANGE {} STEP {}]: under schedule (seed {}, pct {}) the emitted sequence deviates at firing {}: expected the {} rows {:?}, got {:?}; single-thread emitted {} rows in total, multi-thread {}", OPS[c.op as usize % 3], c.width, c.slide, seed, pct, j, want.len(), sorted(want.clone()).first(), sorted(got).first(), a.rows.len(), b.rows.len()))); }
             }
             if pos != b.rows.len() { return Some(Violation::new("multi-thread-sequence-differs", format!("multi-thread mode emitted {} rows beyond the {} expected ones (schedule seed {})", b.rows.len() - pos, pos, seed))); }
-            ctx.state(kolibrie_verif_rt::log::fnv(&format!("{}{}", seed, pct)));
+            let (th, inter) = take_trace_hash(); ctx.state(th); if inter { ctx.hit("probe.consumer_rows_interleaved_with_pushes"); }
         }
         ctx.count("firings", a.contents.len() as u64);
         if a.contents.len() >= 2 { ctx.nontrivial(kolibrie_verif_rt::log::fnv(&format!("{:?}{:?}{:?}{}{}", c.events, c.block, c.rules, c.width, c.slide))); }
@@ -363,6 +370,7 @@ fn multi_scenario(c: &MultiCase, mode: OperationMode, out: Arc<Mutex<Vec<Row>>>)
         let t = triples[0].clone(); names.insert(t.clone(), f);
         let cb = sinks[w].lock().unwrap().len();
         probes[w].add_to_window(t.clone(), ts);
+        trace(b'P');
         e.add_to_stream(&format!(":s{}", w), t, ts);
         let cg = sinks[w].lock().unwrap();
         if cg.len() > cb { contents[w].push((i, cg.last().unwrap().iter().map(|t| names[t].clone()).collect())); }
@@ -432,6 +440,7 @@ impl Prop for C11 {
         for (i, mark) in a.marks.iter().enumerate() { for r in &rows_a[start..*mark] { if let Some(mut v) = judge_row(c, r, &a.contents, i) { v.detail = format!("single-thread, policy {:?}, event {}: {}", c.policy, i, v.detail); if v.class == "foreign-window-items" && c.shared_vocab { deferred.get_or_insert(v); } else { return Some(v); } } } start = *mark; }
         for r in &rows_a[start..] { if let Some(mut v) = judge_row(c, r, &a.contents, usize::MAX) { v.detail = format!("single-thread, at shutdown: {}", v.detail); if v.class == "foreign-window-items" && c.shared_vocab { deferred.get_or_insert(v); } else { return Some(v); } } }
         ctx.count("rows_emitted_single_thread", rows_a.len() as u64);
+        let _ = take_trace_hash();
         // ---- multi-thread mode (worker per window + coordinator) under seeded schedules and the simulated clock
         for (seed, pct) in &c.schedules {
             let res: Arc<Mutex<Option<Result<MultiOut, String>>>> = Arc::new(Mutex::new(None));
@@ -451,7 +460,7 @@ impl Prop for C11 {
             for r in &rows { if let Some(mut v) = judge_row(c, r, &b.contents, usize::MAX) { v.detail = format!("multi-thread, policy {:?}, schedule (seed {}, pct {}): {}", c.policy, seed, pct, v.detail); if v.class == "foreign-window-items" && c.shared_vocab { deferred.get_or_insert(v); } else { return Some(v); } } }
             ctx.count("rows_emitted_multi_thread", rows.len() as u64);
             if matches!(c.policy, Policy::Timeout { .. }) && c.events.iter().any(|e| e.advance_ms > 0) { ctx.hit("fault.clock_advanced_past_coordinator_deadline_candidates"); }
-            ctx.state(kolibrie_verif_rt::log::fnv(&format!("{}{}{}", seed, pct, rows.len())));
+            let (th, inter) = take_trace_hash(); ctx.state(th); if inter { ctx.hit("probe.consumer_rows_interleaved_with_pushes"); }
         }
         if !rows_a.is_empty() { ctx.nontrivial(kolibrie_verif_rt::log::fnv(&format!("{:?}{:?}", c.events, c.wins))); }
         if deferred.is_some() { return deferred; }
